@@ -23,7 +23,7 @@ ASSUMPTIONS = [
     "file names are valid UTF-8 (pyben cannot encode others: a precondition of every caller)",
 ]
 BUDGET = {
-    "quick": {"examples": 500, "workers": 8, "time_cap": 70},
+    "quick": {"examples": 800, "workers": 8, "time_cap": 70},
     "thorough": {"examples": 20000, "workers": 14, "time_cap": 900},
 }
 GRID_DESC = {
